@@ -35,7 +35,11 @@ Judge(R0, R2, T2, line, rej2) ==
   LET tab  == CoreTable(R2, line.obs, T2)
       call == IF IsAdd(line)
               THEN { <<"C01_c_accept_reject", St(C01_c(R0, line, line.res))>>,
-                     <<"C07_a_no_trace", St(C07_a(R0, line, line.res, prevO, line.obs))>> }
+                     <<"C07_a_no_trace", St(C07_a(R0, line, line.res, prevO, line.obs))>>,
+                     \* after a raising call the node set is that of the elements that preceded the failing one
+                     <<"C07_c_nodes_as_if_prefix",
+                       St(line.res # "ok" => /\ R2.nodes \subseteq NodesOf(line.obs)
+                                             /\ NodesOf(line.obs) \subseteq R2.nodes \cup R2.maybe)>> }
               ELSE {}
       c07b == IF rej2 /\ \E x \in tab : x[2] = "fail" /\ SubSeq(x[1], 1, 3) \in {"C01", "C03", "C04", "C05", "C08"}
               THEN { <<"C07_b_as_if_never_made", "fail">> } ELSE {}
